@@ -79,7 +79,7 @@ def cp_touch(tj, steps):
 
 class Prop:
     ID = "C13"
-    LEVEL = "exploration"
+    LEVEL = "proof"
     COQ_HEADER = ""
     CHECK_FN = ""
     RULE = ("enumerated format lattice ({TT,CP}x{U,no U} per mode) for N=2,3 with every mu in -N..N-1; seeded random "
@@ -95,7 +95,7 @@ class Prop:
                    "norm where a scale exists); exact-arithmetic statements are not claimed",
                    "invalid mu (outside the documented ranges) is not exercised: the property has no error clause",
                    "batch tensors are not exercised"]
-    THEOREMS = []
+    THEOREMS = ["C13_left_unchanged", "C13_left_gauge", "C13_right_unchanged", "C13_right_gauge", "C13_isometry", "C13_norm"]
 
     # ------------------------------------------------------------------ generation
     def generate(self, rng, tier):
